@@ -72,6 +72,17 @@ def encoders(rng):
     # numeric type changes along the stream: ints first, floats later
     encs["int_first_then_floats"] = lambda t, e, i: ((1, 1 + e) if i == 0 else ((1.2, 1.2) if e == 0 else (1.2, 1.7)))
     encs["object_arrays"] = lambda t, e, i: (np.array([["a", "b"][t]], dtype=object), np.array([["a", "b"][t ^ e]], dtype=object))
+    # the two labels of one sample wrapped independently (a scalar from the data set, a 1-element prediction from a model ...)
+    encs["scalar_vs_list"] = lambda t, e, i: (t, [t ^ e]) if i % 2 else ([t], t ^ e)
+    encs["tuple_vs_list"] = lambda t, e, i: ((t,), [t ^ e])
+    encs["nested_list_vs_list"] = lambda t, e, i: ([[t]], [t ^ e])
+    encs["scalar_vs_array"] = lambda t, e, i: (t, np.array([t ^ e])) if i % 2 else (np.array([[t]]), t ^ e)
+    encs["series_vs_scalar"] = lambda t, e, i: (pd.Series([t]), t ^ e)
+    sl = ["no", "yes"]
+    encs["str_vs_object_array"] = lambda t, e, i: (sl[t], np.array([sl[t ^ e]], dtype=object)) if i % 2 else (np.array([sl[t]], dtype=object), sl[t ^ e])
+    encs["str_array_vs_string_series"] = lambda t, e, i: (np.array([sl[t]]), pd.Series([sl[t ^ e]]))
+    encs["object_series_vs_str"] = lambda t, e, i: (pd.Series([sl[t]], dtype=object), sl[t ^ e])
+    encs["series_to_numpy_vs_np_str"] = lambda t, e, i: (pd.Series([sl[t]]).to_numpy(), np.str_(sl[t ^ e]))
     encs["pair_substitution"] = lambda t, e, i: ((i % 4, i % 4) if e == 0 else (i % 4, (i + 1 + i % 2) % 4))
     return encs
 
